@@ -4,6 +4,7 @@
 import BorshModel.Theorems.C01
 import BorshModel.Lemmas.Safe
 import BorshModel.Lemmas.ReverseMain
+import BorshModel.Lemmas.StrictLax
 namespace Borsh
 
 /-- (⇐) every valid encoding is accepted and yields the value the specification assigns -/
@@ -88,6 +89,22 @@ example :
        (some [99], false, .seq .vecDeque (Ty.sum .option [([78], 0, []), ([83], 1, [(none, false, .bool)])]))]
     (revTy t && keysOk t && WfTy t) = true := by
   decide +kernel
+
+/-- whatever strict mode accepts, lax mode accepts with the same value: every type, sets and maps
+included — so the lax mode only *adds* inputs -/
+theorem C04_strict_accept_implies_lax (t : Ty) (bs : Bytes) (v : Val)
+    (h : fromSlice true t bs = .ok v) : fromSlice false t bs = .ok v := by
+  unfold fromSlice deserialize at h ⊢
+  obtain ⟨r, h1, h2⟩ := Out.bind_eq_ok_iff.mp h
+  rw [strict_sub_lax_all Rd.slice t bs r h1]
+  exact h2
+
+/-- … and the inputs it adds can only involve a hash/ordered set or map: on every type without
+one the two modes are the same decoder (index collections have no order check in either mode) -/
+theorem C04_mode_irrelevant_without_order (t : Ty) (h : noOrderCheck t = true) (bs : Bytes) :
+    fromSlice false t bs = fromSlice true t bs := by
+  unfold fromSlice deserialize
+  rw [mode_irrelevant_all Rd.slice t h]
 
 /-- a tag byte other than 0/1 is never accepted for `bool` -/
 theorem C04_bool_tag (st : Bool) (b : UInt8) (rest : Bytes) (h0 : b ≠ 0) (h1 : b ≠ 1) :
